@@ -1,4 +1,5 @@
 import CentrifugeVerif.Proofs.HistoryHubBroker
+import CentrifugeVerif.Proofs.HistoryHubCacheKey
 /-!
 # C19 — Idempotent and versioned publishes suppress exactly the duplicates
 (memory stream broker part; Redis/Lua and the map brokers are not covered here)
@@ -16,19 +17,19 @@ commits a5ec69f4 and e5e52fd9), for all states, operation sequences and times:
 * `version_pair_step`, `unversioned_keeps_version` — the held version pair changes **only** by a
   stored versioned publish on that channel: unversioned publishes, other channels' traffic,
   history reads, remove, data expiry do not reset the protection;
-* `version_suppressed_changes_nothing` — a version-suppressed publish without `UseDelta` leaves the
-  whole broker state untouched (streams, epochs, **deadlines**, queues, result cache);
+* `version_suppressed_changes_nothing` — a version-suppressed publish (with or without `UseDelta`)
+  leaves the whole broker state untouched (streams, epochs, **deadlines**, queues, result cache);
 * `suppressed_no_broadcast`, `stored_broadcast_once`.
-Two clauses still do **not** hold for the code; each has a machine-checked counter-witness below
-and a replay on the real broker:
-* with `UseDelta` the delta read (`getLocked`) in front of the version check still refreshes the
-  channel's meta-TTL deadline, so a version-suppressed delta publish extends the life of the stream
-  metadata (`version_suppressed_delta_partial`, `version_suppressed_delta_refreshes_meta`; C19-4);
-* the result-cache key is `channel ++ "_" ++ key`, so different (channel, key) pairs can collide and
-  a first-time publish is suppressed ("exactly the duplicates" fails; C19-3).
-Fixed since the first round (old counter-witnesses kept as comments, replays kept in the corpus):
-C19-1 (an unversioned publish reset the version pair), C19-2 (a version-suppressed publish
-refreshed the history-TTL and meta-TTL deadlines).
+* `cache_key_injective`, `other_key_keeps_entry` — the result-cache key
+  `Itoa(len(ch)) + "_" + ch + "_" + key` is injective, so a publish under a different
+  (channel, key) never creates, refreshes or hits another pair's entry: with
+  `idem_suppressed_iff` the idempotency suppression hits **exactly** the repeats.
+All findings of the first rounds are fixed in /repo (old counter-witnesses kept as comments,
+replays kept in the corpus as regression guards): C19-1 (an unversioned publish reset the version
+pair; a5ec69f4), C19-2 (a version-suppressed publish refreshed the history-TTL and meta-TTL
+deadlines; e5e52fd9), C19-3 (result-cache key `ch + "_" + key` collided across channels; 1b02042a),
+C19-4 (with `UseDelta` the delta read preceded the version check and refreshed the meta-TTL
+deadline; 43a5eb1b).
 -/
 namespace CentrifugeVerif.HistoryHub
 open CentrifugeVerif.MemStream CentrifugeVerif.AbsStream
@@ -76,6 +77,32 @@ theorem idem_changes_nothing (b : Broker) (ch data : String) (o : PubOpts) (now 
   · rw [publish_skip b ch data o now hm hh hsk] at hs; cases hs
   · rw [publish_store b ch data o now hm hh hsk] at hs; cases hs
   · rw [publish_nohistory b ch data o now hm hh] at hs; cases hs
+
+/-- **the result-cache key is injective**: different (channel, key) pairs never share an entry -/
+theorem cache_key_injective (ch key ch' key' : String) (h : cacheKey ch key = cacheKey ch' key') :
+    ch = ch' ∧ key = key' := cacheKey_injective ch key ch' key' h
+
+/-- a publish under another (channel, key) pair leaves the entry of (`ch`, `key`) as it is —
+it neither creates nor refreshes nor replaces it -/
+theorem other_key_keeps_entry (b : Broker) (ch key ch' data : String) (o : PubOpts) (now : Nat)
+    (hne : ¬ (ch' = ch ∧ o.idemKey = key)) :
+    (b.publish ch' data o now).1.cache (cacheKey ch key) = b.cache (cacheKey ch key) := by
+  have hck : cacheKey ch key ≠ cacheKey ch' o.idemKey := by
+    intro h
+    obtain ⟨h1, h2⟩ := cacheKey_injective _ _ _ _ h
+    exact hne ⟨h1.symm, h2.symm⟩
+  have hsave : ∀ (b' : Broker) (q : Pos), b'.cache = b.cache →
+      (b'.saved ch' o q now).cache (cacheKey ch key) = b.cache (cacheKey ch key) := by
+    intro b' q hb'
+    unfold Broker.saved
+    split
+    · unfold Broker.cacheSave; simp [hck, hb']
+    · rw [hb']
+  rcases publish_cases b ch' data o now with ⟨p, h⟩ | ⟨hm, hh, hsk⟩ | ⟨hm, hh, hsk⟩ | ⟨hm, hh⟩
+  · rw [publish_hit b ch' data o now p h]
+  · rw [publish_skip b ch' data o now hm hh hsk]
+  · rw [publish_store b ch' data o now hm hh hsk]; exact hsave _ _ rfl
+  · rw [publish_nohistory b ch' data o now hm hh]; exact hsave _ _ rfl
 
 /-- a keyed publish that is not suppressed saves its position under the cache key with
 `ExpireAt = now + seconds·1000` -/
@@ -258,57 +285,26 @@ theorem stored_broadcast_once (b : Broker) (ch data : String) (o : PubOpts) (now
   · rw [publish_store b ch data o now hm hh hsk]; exact ⟨_, rfl⟩
   · rw [publish_nohistory b ch data o now hm hh]; exact ⟨_, rfl⟩
 
-/-- the exact state after a version-suppressed publish: the broker is unchanged except that, with
-`UseDelta`, the delta read in front of the version check has refreshed the channel's meta deadline -/
-theorem version_suppressed_state (b : Broker) (ch data : String) (o : PubOpts) (now : Nat)
-    (hs : (b.publish ch data o now).2.suppress = .version) :
-    (b.publish ch data o now).1 =
-      { b with hub := if o.useDelta then b.hub.touchMeta ch o.metaTTL (now / 1000) else b.hub } ∧
-      ∃ s, (b.hub.chans ch).stream = some s ∧ (b.publish ch data o now).2.pos = ⟨s.top, s.epoch⟩ := by
-  rcases publish_cases b ch data o now with ⟨p, h⟩ | ⟨hm, hh, hsk⟩ | ⟨hm, hh, hsk⟩ | ⟨hm, hh⟩
-  · rw [publish_hit b ch data o now p h] at hs; cases hs
-  · rw [publish_skip b ch data o now hm hh hsk]
-    obtain ⟨h1, _, _, _, h5⟩ := add_skip_spec b.hub ch ⟨data, o.version⟩ o (now / 1000) hsk
-    exact ⟨by simp only [h1], h5⟩
-  · rw [publish_store b ch data o now hm hh hsk] at hs; cases hs
-  · rw [publish_nohistory b ch data o now hm hh] at hs; cases hs
-
-/-- **suppressed publishes change nothing**: a version-suppressed publish without `UseDelta` leaves
-the broker state exactly as it was — streams, epochs, history-TTL and meta-TTL deadlines, sweep
-queues, result cache — returns the current top position and reaches no subscriber. -/
+/-- **suppressed publishes change nothing**: a version-suppressed publish — with or without
+`UseDelta` — leaves the broker state exactly as it was (streams, epochs, history-TTL and meta-TTL
+deadlines, sweep queues, result cache), returns the current top position and reaches no subscriber. -/
 theorem version_suppressed_changes_nothing (b : Broker) (ch data : String) (o : PubOpts) (now : Nat)
-    (hs : (b.publish ch data o now).2.suppress = .version) (hd : o.useDelta = false) :
-    (b.publish ch data o now).1 = b ∧ (b.publish ch data o now).2.bcast = none := by
-  refine ⟨?_, suppressed_no_broadcast b ch data o now (by rw [hs]; simp)⟩
-  rw [(version_suppressed_state b ch data o now hs).1]
-  simp [hd]
-
-/-- **(partial, `UseDelta`)**: with `UseDelta` a version-suppressed publish leaves every stream, the
-epoch counter, the history-TTL deadline and the result cache untouched; only the channel's
-meta-TTL deadline is refreshed (by the delta read that precedes the version check).
-Full statement — state unchanged — fails: `version_suppressed_delta_refreshes_meta` below. -/
-theorem version_suppressed_delta_partial (b : Broker) (ch data : String) (o : PubOpts) (now : Nat)
     (hs : (b.publish ch data o now).2.suppress = .version) :
-    (∀ x, ((b.publish ch data o now).1.hub.chans x).stream = (b.hub.chans x).stream) ∧
-      (∀ x, ((b.publish ch data o now).1.hub.chans x).expires = (b.hub.chans x).expires) ∧
-      (b.publish ch data o now).1.hub.nextEpoch = b.hub.nextEpoch ∧
-      (b.publish ch data o now).1.cache = b.cache := by
-  rw [(version_suppressed_state b ch data o now hs).1]
-  refine ⟨?_, ?_, ?_, rfl⟩
-  · intro x; simp only; split
-    · exact touchMeta_stream _ _ _ _ _
-    · rfl
-  · intro x; simp only; split
-    · unfold Hub.touchMeta
-      split
-      · by_cases hx : x = ch
-        · subst hx; simp
-        · simp [set_chans_other _ _ _ _ hx]
-      · rfl
-    · rfl
-  · simp only; split
-    · exact touchMeta_nextEpoch _ _ _ _
-    · rfl
+    (b.publish ch data o now).1 = b ∧ (b.publish ch data o now).2.bcast = none ∧
+      ∃ s, (b.hub.chans ch).stream = some s ∧ (b.publish ch data o now).2.pos = ⟨s.top, s.epoch⟩ := by
+  refine ⟨?_, suppressed_no_broadcast b ch data o now (by rw [hs]; simp), ?_⟩
+  · rcases publish_cases b ch data o now with ⟨p, h⟩ | ⟨hm, hh, hsk⟩ | ⟨hm, hh, hsk⟩ | ⟨hm, hh⟩
+    · rw [publish_hit b ch data o now p h] at hs; cases hs
+    · rw [publish_skip b ch data o now hm hh hsk]
+      simp only [(add_skip_spec b.hub ch ⟨data, o.version⟩ o (now / 1000) hsk).1]
+    · rw [publish_store b ch data o now hm hh hsk] at hs; cases hs
+    · rw [publish_nohistory b ch data o now hm hh] at hs; cases hs
+  · rcases publish_cases b ch data o now with ⟨p, h⟩ | ⟨hm, hh, hsk⟩ | ⟨hm, hh, hsk⟩ | ⟨hm, hh⟩
+    · rw [publish_hit b ch data o now p h] at hs; cases hs
+    · rw [publish_skip b ch data o now hm hh hsk]
+      exact (add_skip_spec b.hub ch ⟨data, o.version⟩ o (now / 1000) hsk).2.2.2.2
+    · rw [publish_store b ch data o now hm hh hsk] at hs; cases hs
+    · rw [publish_nohistory b ch data o now hm hh] at hs; cases hs
 
 /-! ## witnesses (each is replayed on the real broker by the check) -/
 
@@ -341,33 +337,40 @@ theorem version_suppressed_keeps_ttl :
       (((b1.tick 10).tick 11).history "a" { limit := -1 } 0 11500).2.1 = [] ∧
       (((b2.tick 10).tick 11).history "a" { limit := -1 } 0 11500).2.1 = [] := by decide
 
-/-- finding C19-4 (counter-witness to "suppressed publishes change nothing" with `UseDelta`):
-v=5 at 0.5 s with meta TTL 3 s (meta deadline: second 3); a version-suppressed **delta** publish at
-2.5 s moves the meta deadline to second 5, so the stream (epoch 1, top 1) survives the sweeps at
-seconds 3 and 4 — without it the stream is dropped at second 3 and the next read sees epoch 2. -/
+/-- fixed finding C19-4: v=5 at 0.5 s with meta TTL 3 s (meta deadline: second 3); a
+version-suppressed **delta** publish at 2.5 s leaves the meta deadline at second 3, so the stream is
+dropped at second 3 and the next read sees a fresh epoch — exactly as without that publish.
+(Before /repo commit 43a5eb1b the delta read preceded the version check and moved the deadline to
+second 5: the read at 4.5 s still saw offset 1 in epoch 1.) -/
 def c19w4 : List Op := [
   .publish "a" "d1" { size := 3, ttl := 10000, metaTTL := 3000, version := 5 } 500,
   .publish "a" "d2" { size := 3, ttl := 10000, metaTTL := 3000, version := 3, useDelta := true } 2500]
 
-theorem version_suppressed_delta_refreshes_meta :
+theorem version_suppressed_delta_keeps_meta :
     let b1 := run (Broker.init 60000) (c19w4.take 1)
     let b2 := run (Broker.init 60000) c19w4
-    (b1.hub.chans "a").removes = some 3 ∧ (b2.hub.chans "a").removes = some 5 ∧
+    (b1.hub.chans "a").removes = some 3 ∧ (b2.hub.chans "a").removes = some 3 ∧
       (((b1.tick 3).tick 4).history "a" { limit := 0 } 3000 4500).2.2 = ⟨0, 2⟩ ∧
-      (((b2.tick 3).tick 4).history "a" { limit := 0 } 3000 4500).2.2 = ⟨1, 1⟩ := by decide
+      (((b2.tick 3).tick 4).history "a" { limit := 0 } 3000 4500).2.2 = ⟨0, 2⟩ := by decide
 
-/-- finding C19-3: (channel `a_b`, key `c`) and (channel `a`, key `b_c`) share a cache key; the
-first-time publish to `a` is answered with the other channel's position and dropped -/
-theorem cache_key_collision : cacheKey "a_b" "c" = cacheKey "a" "b_c" := by decide
+/-- fixed finding C19-3: (channel `a_b`, key `c`) and (channel `a`, key `b_c`) have different cache
+keys (`3_a_b_c` vs `1_a_b_c`); the first-time publish to `a` is stored.
+(Before /repo commit 1b02042a the key was `ch + "_" + key`, both pairs mapped to `a_b_c`, and the
+second publish was answered `(⟨1, 1⟩, idempotency)` and dropped.) -/
+theorem cache_key_no_collision : cacheKey "a_b" "c" ≠ cacheKey "a" "b_c" := by
+  intro h; have := (cacheKey_injective _ _ _ _ h).1; revert this; decide
 
 def c19w3 : List Op := [
   .publish "a_b" "d1" { size := 3, ttl := 10000, idemKey := "c" } 500,
   .publish "a" "d2" { size := 3, ttl := 10000, idemKey := "b_c" } 600]
 
-theorem idem_collision_suppresses_first_publish :
+theorem idem_no_collision_first_publish_stored :
     (runOut (Broker.init 60000) c19w3).map (fun o => match o with | .pub p => some (p.pos, p.suppress) | _ => none) =
-      [some (⟨1, 1⟩, .none), some (⟨1, 1⟩, .idempotency)] ∧
-    ((run (Broker.init 60000) c19w3).hub.chans "a").stream = none := by decide
+      [some (⟨1, 1⟩, .none), some (⟨1, 2⟩, .none)] := by
+  have hne : cacheKey "a" "b_c" ≠ cacheKey "a_b" "c" := fun h => cache_key_no_collision h.symm
+  simp [c19w3, runOut, step, Broker.publish, Broker.init, Broker.cacheGet, Broker.cacheSave, hne,
+    Hub.add, Hub.versionSkip, Hub.deltaRead, Hub.addCore, Hub.touchExpire, Hub.touchMeta, Hub.effMeta,
+    Hub.set, MStream.new, MStream.add, idemSeconds]
 
 /-! ## non-vacuity of the hypotheses above -/
 
